@@ -216,7 +216,51 @@ func History(t *rapid.T, label string, big bool) (*Live, string) {
 		if e > model.Max32+1 {
 			e = model.Max32 + 1
 		}
-		switch rapid.IntRange(0, 7).Draw(t, label+".op") {
+		switch rapid.IntRange(0, 8).Draw(t, label+".op") {
+		case 8:
+			// take scattered members out of a big chunk until exactly 4095 / 4096 / 4097 are left (static or in-place
+			// difference, or symmetric difference, with an array-sized mask)
+			var kk uint64
+			found := false
+			for _, k := range l.Model.Keys16() {
+				if l.Model.Window(uint64(k)<<16, uint64(k)<<16+65535).Card() > 4097 {
+					kk, found = uint64(k), true
+					break
+				}
+			}
+			if !found {
+				continue
+			}
+			cw := l.Model.Window(kk<<16, kk<<16+65535)
+			target := uint64(rapid.SampledFrom([]int{4095, 4096, 4097}).Draw(t, label+".land"))
+			excess := cw.Card() - target
+			if excess > 4096 {
+				// first cut the tail so that an array-sized mask suffices
+				v, _ := cw.Select(target + 4000)
+				l.B.RemoveRange(v, kk<<16+65536)
+				l.Model.RemoveRange(v, kk<<16+65535)
+				cw = l.Model.Window(kk<<16, kk<<16+65535)
+				excess = cw.Card() - target
+			}
+			step := cw.Card() / excess
+			vals := make([]uint32, 0, excess)
+			for i := uint64(0); i < excess; i++ {
+				v, _ := cw.Select(i * step)
+				vals = append(vals, uint32(v))
+			}
+			mask := roaring.BitmapOf(vals...)
+			switch rapid.IntRange(0, 2).Draw(t, label+".landHow") {
+			case 0:
+				l.B = roaring.AndNot(l.B, mask)
+				desc += fmt.Sprintf("; =AndNot(this, %d scattered values of chunk %d) leaving %d", len(vals), kk, target)
+			case 1:
+				l.B.AndNot(mask)
+				desc += fmt.Sprintf("; AndNot(%d scattered values of chunk %d) leaving %d", len(vals), kk, target)
+			default:
+				l.B = roaring.Xor(l.B, mask)
+				desc += fmt.Sprintf("; =Xor(this, %d scattered members of chunk %d) leaving %d", len(vals), kk, target)
+			}
+			l.Model = model.AndNot(l.Model, model.FromValues32(vals))
 		case 0:
 			l.B.Add(uint32(x))
 			l.Model.Add(x)
